@@ -19,7 +19,7 @@ SEMIRINGS = ["Q", "Q", "Float", "Real", "Boolean", "MaxTimes", "Log"]
 
 
 def plan(tier, seed):
-    return common.add_m9_shard(common.plan_shards(tier, seed, n_quick=250, n_thorough=1200, budget_quick=30, budget_thorough=300), tier)
+    return common.add_m9_shard(common.plan_shards(tier, seed, n_quick=250, n_thorough=4000, budget_quick=30, budget_thorough=300), tier)
 
 
 def gates(tier):
